@@ -6,6 +6,11 @@ PROPS = {}
 # ---- contract modules (import order matters: callee contracts first)
 decl.default_props(["C04"])
 from . import c04_util  # noqa: E402,F401
+decl.default_props(["C01"])
+from . import c01_registry  # noqa: E402,F401
+
+PROPS["C01"] = dict(level="proof", explanation="", standins=[], assumptions=[])
+PROPS["C02"] = dict(level="proof", explanation="", standins=[], assumptions=[])
 
 PROPS["C04"] = dict(
     level="proof",
